@@ -613,6 +613,12 @@ class State:
             return arg          # rounding an integer to precision 0 is the identity
         key = (prec, arg.key())
         n = self.rnd_index.get(key)
+        if n is None and not (arg.d.is_const()):
+            # rational functions are not stored in canonical form: intern by semantic equality
+            for (p_, _k), m_ in self.rnd_index.items():
+                if p_ == prec and isinstance(p_, int) and self.rnd_args[m_].equals(arg):
+                    n = m_
+                    break
         if n is None:
             n = len(self.rnd_args) + 1
             self.rnd_index[key] = n
